@@ -1,7 +1,7 @@
 (* C10 — unmodelled content passes through untouched and in place.  Statements only. *)
 From Coq Require Import String NArith List Bool.
 From RC Require Import lib.Result lib.Bytes model.Layout model.ChkIo model.TrigTable model.RichCodec model.RichIo
-  proofs.C10_proofs.
+  proofs.C10_proofs proofs.C10_entries gen.GenTrig gen.GenFlags.
 Import ListNotations.
 
 (* sections: for every decoded map, every position i holding an unmodelled section (unknown name, STRx, a recognised
@@ -44,3 +44,43 @@ Print Assumptions C10_unsupported_entry_is_kept_raw.
 Theorem C10_record_fields_are_distinct : NoDup action_record_fields /\ NoDup condition_record_fields.
 Proof. exact record_fields_nodup. Qed.
 Print Assumptions C10_record_fields_are_distinct.
+
+Local Open Scope string_scope.
+
+(* INSIDE A TRIGGER, for whole entry lists.  Whatever the 16 / 64 entries of a trigger are (any mixture of supported,
+   unsupported, unknown and empty entries) and whatever the decode and encode contexts are: the entries without a rich
+   model that come out of decode -> encode are exactly those that went in, field for field and in the same ORDER; the
+   supported entries and the padding never turn into one. *)
+Theorem C10_unmodelled_entries_keep_content_and_order :
+  forall cx cx' v t v', trigger_decode cx v = Ok t -> trigger_encode cx' t = Ok v' -> raw_entries_preserved v v'.
+Proof. exact trigger_raw_entries_survive. Qed.
+Print Assumptions C10_unmodelled_entries_keep_content_and_order.
+
+(* ... and keep their POSITION when no empty slot precedes them (an empty slot before them is the recorded finding
+   interior-gap-compacted: the rich layer drops it) *)
+Theorem C10_unmodelled_action_keeps_its_position :
+  forall cx cx' n vs os vs' k v,
+    mapM (decode_entry_of cx gen_action_table "TriggerActionId" "_action_id" action_flags_codec action_record_fields) vs = Ok os ->
+    mapM (encode_entry_of cx' gen_action_table action_flags_codec action_record_fields) (somes os) = Ok vs' ->
+    forallb (fun x => negb (N.eqb (vint "_action_id" x) NO_ENTRY) || raw_action x) (firstn k vs) = true ->
+    nth_error vs k = Some v -> raw_action v = true ->
+    nth_error (pad_to n (empty_entry action_record_fields) vs') k = Some (norm action_record_fields v).
+Proof.
+  exact (raw_entry_keeps_its_position gen_action_table "TriggerActionId" "_action_id" action_flags_codec action_record_fields
+           (proj1 record_fields_nodup) in_action_fields action_id_is_not_flags action_table_ids_ok).
+Qed.
+Print Assumptions C10_unmodelled_action_keeps_its_position.
+
+(* THE WHOLE PATH.  Load a map; append triggers to the TRIG section at position i and do anything at all to the other
+   sections; save (with or without sound metadata).  Position i of the output is a TRIG section in which trigger k is the
+   input's trigger k with its unmodelled conditions and actions preserved as above. *)
+Theorem C10_unmodelled_entries_survive_load_edit_save :
+  forall d r r' wd d' i v ts new,
+    load d = Ok r -> nth_error d i = Some (DTab "TRIG" v) ->
+    nth_error r i = Some (RTrig ts) -> nth_error r' i = Some (RTrig (ts ++ new)) ->
+    save wd r' = Ok d' ->
+    exists v', nth_error d' i = Some (DTab "TRIG" v') /\
+      forall k tv, nth_error (vlist "_triggers" v) k = Some tv ->
+        exists tv', nth_error (vlist "_triggers" v') k = Some tv' /\ raw_entries_preserved tv tv'.
+Proof. exact raw_trigger_entries_survive_load_edit_save. Qed.
+Print Assumptions C10_unmodelled_entries_survive_load_edit_save.
